@@ -28,67 +28,78 @@ directory produce no other event), besides Write, Rename and Remove -/
 theorem F7_event_mask :
     ["Create", "Remove", "Rename", "Write"].all (fun op => Generated.eventMask.contains op) = true := by decide
 
-def hasPass (c : Cfg) (q : List Ev) : Bool := q.any (passes c)
-def rmdirs (q : List Ev) : Nat := q.countP (fun e => e == .rmdir)
+/-- F7b: the watcher goroutine reacts to an error of the event source (events lost) with a rescan - the third
+flag of the repaired configuration -/
+theorem F7_lost_events_rescan : Generated.overflowRescans = true := by decide
 
-/-- the invariant: a live kernel watch is believed and attached; there is exactly one pending
-directory-removal event iff the watch is dead but still believed; and whenever the snapshot is
-stale, something will cause a rescan — a passing event in the queue, a pending scan, or an
-untracked directory that exists (re-add on the next query) or existed at the last scan (forced
-refresh) -/
+def hasPass (c : Cfg) (q : List Ev) : Bool := q.any (passes c)
+/-- an event on which the watcher drops its belief that the directory is watched: the Remove of the
+directory itself, or the overflow marker -/
+def isResync (e : Ev) : Bool := e == .rmdir || e == .lost
+def hasResync (q : List Ev) : Bool := q.any isResync
+
+/-- the invariant: a live kernel watch is attached to an existing directory; whenever the watch is dead
+but still believed, an event that corrects the belief is pending (the Remove of the directory, or - if
+that was lost - the overflow marker); and whenever the snapshot is stale, something will cause a rescan -
+a passing event in the queue, a pending scan, or an untracked directory that exists (re-add on the next
+query) or existed at the last scan (forced refresh) -/
 def inv (c : Cfg) (s : St) : Bool :=
-  (!s.kwatch || (s.tracked && s.dirExists)) &&
-  (rmdirs s.queue == (if s.tracked && !s.kwatch then 1 else 0)) &&
+  (!s.kwatch || s.dirExists) &&
+  (!(s.tracked && !s.kwatch) || hasResync s.queue) &&
   (!s.stale || hasPass c s.queue || s.pend || (!s.tracked && (s.dirExists || s.seen)))
 
 theorem hasPass_snoc (c : Cfg) (q : List Ev) (e : Ev) : hasPass c (q ++ [e]) = (hasPass c q || passes c e) := by
   simp [hasPass, List.any_append]
-theorem rmdirs_snoc (q : List Ev) (e : Ev) : rmdirs (q ++ [e]) = rmdirs q + (if e = .rmdir then 1 else 0) := by
-  simp [rmdirs, List.countP_append, List.countP_cons]
+theorem hasResync_snoc (q : List Ev) (e : Ev) : hasResync (q ++ [e]) = (hasResync q || isResync e) := by
+  simp [hasResync, List.any_append]
 theorem hasPass_cons (c : Cfg) (q : List Ev) (e : Ev) : hasPass c (e :: q) = (passes c e || hasPass c q) := by
   simp [hasPass]
-theorem rmdirs_cons (q : List Ev) (e : Ev) : rmdirs (e :: q) = rmdirs q + (if e = .rmdir then 1 else 0) := by
-  simp [rmdirs, List.countP_cons]
+theorem hasResync_cons (q : List Ev) (e : Ev) : hasResync (e :: q) = (isResync e || hasResync q) := by
+  simp [hasResync]
 
-theorem rmdir_pass (c : Cfg) (q : List Ev) : 0 < rmdirs q → hasPass c q = true := by
+/-- under the repaired configuration every belief-correcting event passes the filter -/
+theorem resync_pass (q : List Ev) : hasResync q = true → hasPass repaired q = true := by
   intro h
-  simp only [rmdirs, List.countP_pos_iff, beq_iff_eq] at h
-  obtain ⟨e, he, rfl⟩ := h
+  simp only [hasResync, List.any_eq_true] at h
+  obtain ⟨e, he, hr⟩ := h
   simp only [hasPass, List.any_eq_true]
-  exact ⟨_, he, rfl⟩
+  refine ⟨e, he, ?_⟩
+  cases e <;> simp [isResync] at hr <;> rfl
 
 theorem inv_init (d : Bool) : inv repaired (init d) = true := by cases d <;> decide
 
-/-- closes a preservation goal once every Boolean of the state is a literal: the invariant of
-the old state fixes the number of pending rmdir events, and a pending one is a passing event -/
-macro "close_inv" n:ident hp:ident : tactic =>
-  `(tactic| (intro h hrp
-             simp only [Bool.and_eq_true, Bool.or_eq_true, beq_iff_eq, Bool.not_eq_true'] at h
-             first
-             | (obtain ⟨⟨_, hn⟩, _⟩ := h
-                simp at hn
-                subst hn
-                revert h hrp
-                cases $hp:ident <;> simp <;> decide)
-             | (exfalso; revert h; simp)
-             | (revert h hrp; cases $hp:ident <;> simp <;> omega)))
+theorem dropNewest_pass (q q' : List Ev) (h : dropNewest q = some q') :
+    hasPass repaired q' = true ∧ hasResync q' = true := by
+  unfold dropNewest at h
+  split at h
+  · cases h
+  · injection h with h
+    subst h
+    simp [hasPass_snoc, hasResync_snoc, passes, repaired, isResync]
 
 /-- the invariant is preserved by every enabled step of every kind -/
 theorem inv_step (s s' : St) (st : Step) (h : inv repaired s = true) (hs : step repaired s st = some s') :
     inv repaired s' = true := by
   obtain ⟨de, kw, tr, se, stl, pe, q⟩ := s
-  have hrp := rmdir_pass repaired q
+  have hrp := resync_pass q
   simp only [inv] at h
-  simp only [Bool.and_eq_true, beq_iff_eq] at h
+  simp only [Bool.and_eq_true] at h
   obtain ⟨⟨h1, h2⟩, h3⟩ := h
   cases st with
+  | drop =>
+    simp only [step, Option.map_eq_some_iff] at hs
+    obtain ⟨q', hq', rfl⟩ := hs
+    obtain ⟨hp, hr⟩ := dropNewest_pass q q' hq'
+    simp only [inv, hp, hr, Bool.and_eq_true]
+    simp at h1 ⊢
+    exact h1
   | fs o =>
     rcases o with _ | _ | _ | _ | _ | ⟨_ | _⟩ <;> cases de <;> cases kw <;>
       simp [step, fsStep, emit] at hs <;> subst hs <;>
-      simp only [inv, hasPass_snoc, rmdirs_snoc, passes, repaired, Bool.and_eq_true, beq_iff_eq] <;>
+      simp only [inv, hasPass_snoc, hasResync_snoc, passes, isResync, repaired, Bool.and_eq_true] <;>
       cases tr <;> simp at h1 h2 ⊢ <;>
       cases se <;> cases stl <;> cases pe <;> simp at h3 ⊢ <;>
-      (try omega) <;> (try (simp [h2] at hrp; simp [hrp])) <;> (try (cases hh : hasPass repaired q <;> simp_all [repaired]))
+      (try (simp [h2] at hrp; simp [hrp, h2])) <;> (try (cases hh : hasPass repaired q <;> simp_all [repaired]))
   | cache o =>
     cases o with
     | watcherTake =>
@@ -96,14 +107,14 @@ theorem inv_step (s s' : St) (st : Step) (h : inv repaired s = true) (hs : step 
       · cases q with
         | nil => simp [step, cacheStep] at hs
         | cons e rest =>
-          have hrp' := rmdir_pass repaired rest
-          rw [rmdirs_cons] at h2
+          have hrp' := resync_pass rest
+          rw [hasResync_cons] at h2
           rw [hasPass_cons] at h3
           cases e <;> cases de <;> cases tr <;>
             simp [step, cacheStep, passes, update, repaired] at hs <;> subst hs <;>
-            simp only [inv, passes, repaired, Bool.and_eq_true, beq_iff_eq] <;>
-            cases kw <;> simp at h1 h2 ⊢ <;> cases se <;> cases stl <;> simp [passes] at h3 ⊢ <;>
-            (try omega) <;> (try (simp [h2] at hrp'; simp [hrp'])) <;>
+            simp only [inv, passes, repaired, Bool.and_eq_true] <;>
+            cases kw <;> simp [isResync] at h1 h2 ⊢ <;> cases se <;> cases stl <;> simp [passes] at h3 ⊢ <;>
+            (try (simp [h2] at hrp'; simp [hrp', h2])) <;>
             (try (cases hh : hasPass repaired rest <;> simp_all [repaired]))
       · simp [step, cacheStep] at hs
     | scan =>
@@ -111,24 +122,24 @@ theorem inv_step (s s' : St) (st : Step) (h : inv repaired s = true) (hs : step 
       · simp [step, cacheStep] at hs
       · simp [step, cacheStep] at hs
         subst hs
-        simp only [inv, Bool.and_eq_true, beq_iff_eq]
-        cases de <;> cases kw <;> cases tr <;> simp at h1 h2 ⊢ <;> (try omega) <;> (try exact h2)
+        simp only [inv, Bool.and_eq_true]
+        cases de <;> cases kw <;> cases tr <;> simp at h1 h2 ⊢ <;> (try exact h2)
     | query =>
       cases pe
       · cases de <;> cases tr <;> cases se <;>
           simp [step, cacheStep, update, repaired] at hs <;> subst hs <;>
-          simp only [inv, repaired, Bool.and_eq_true, beq_iff_eq] <;>
+          simp only [inv, repaired, Bool.and_eq_true] <;>
           cases kw <;> simp at h1 h2 ⊢ <;> cases stl <;> simp at h3 ⊢ <;>
-          (try omega) <;> (try (simp [h2] at hrp; simp [hrp])) <;>
+          (try (simp [h2] at hrp; simp [hrp, h2])) <;>
           (try (cases hh : hasPass repaired q <;> simp_all [repaired]))
       · simp [step, cacheStep] at hs
     | foreignDue =>
       cases pe
       · cases de <;> cases tr <;> cases se <;>
           simp [step, cacheStep, update, repaired] at hs <;> subst hs <;>
-          simp only [inv, repaired, Bool.and_eq_true, beq_iff_eq] <;>
+          simp only [inv, repaired, Bool.and_eq_true] <;>
           cases kw <;> simp at h1 h2 ⊢ <;> cases stl <;> simp at h3 ⊢ <;>
-          (try omega) <;> (try (simp [h2] at hrp; simp [hrp])) <;>
+          (try (simp [h2] at hrp; simp [hrp, h2])) <;>
           (try (cases hh : hasPass repaired q <;> simp_all [repaired]))
       · simp [step, cacheStep] at hs
 
@@ -144,8 +155,10 @@ theorem inv_run (s : St) (l : List Step) (h : inv repaired s = true) : inv repai
 /-- **C11 — the property theorem**: for every finite history of file-system operations on the
 directory (files written, replaced, moved in, removed; the directory removed and recreated,
 missing at start) and every interleaving with the watcher's event handling, its scans and
-queries, once the event queue is drained and no scan is pending, the next query's result is
-not stale: it is what a cache freshly built from the final directory content returns. -/
+queries - and with the kernel dropping any of the queued events at any moment (`Step.drop`: queue
+overflow, which leaves the overflow marker) -, once the event queue is drained and no scan is pending,
+the next query's result is not stale: it is what a cache freshly built from the final directory
+content returns. -/
 theorem C11_converges (dirExists0 : Bool) (schedule : List Step) :
     let s := runSteps repaired (init dirExists0) schedule
     s.queue = [] → s.pend = false → (queryNow repaired s).stale = false := by
@@ -177,12 +190,26 @@ example : (queryNow pinned (runSteps pinned (init true)
 /-- (2) with Create in the mask but without the `seen` rule: the directory is removed and the
 removal handled, the directory is recreated with a Spec and scanned while unwatched, then
 removed again with no event — nothing ever forces a refresh -/
-example : (queryNow ⟨true, false⟩ (runSteps ⟨true, false⟩ (init true)
+example : (queryNow ⟨true, false, false⟩ (runSteps ⟨true, false, false⟩ (init true)
     [.fs .rmdir, .cache .watcherTake, .fs .mkdir, .fs .writeSpec, .cache .scan, .fs .rmdir])).stale = true := by decide
 
 /-- the repaired machine handles both histories -/
 example : (queryNow repaired (runSteps repaired (init true)
     [.fs .rmdir, .cache .watcherTake, .fs .mkdir, .fs .writeSpec, .cache .scan, .fs .rmdir])).stale = false := by decide
+
+/-- (3) events are lost: a Spec file is written, the kernel drops the event (queue full) and leaves its overflow
+marker; a watcher that ignores the marker never rescans (the tree before the third repair) -/
+example : (queryNow ⟨true, true, false⟩ (runSteps ⟨true, true, false⟩ (init true)
+    [.fs .writeSpec, .drop, .cache .watcherTake])).stale = true := by decide
+example : (queryNow repaired (runSteps repaired (init true)
+    [.fs .writeSpec, .drop, .cache .watcherTake, .cache .scan])).stale = false := by decide
+/-- the lost event is the removal of the directory itself: the watcher keeps believing in a dead watch; the
+directory comes back with a Spec. Only dropping every belief on the marker (`resync`) gets the watch back. -/
+example : (queryNow repaired (runSteps repaired (init true)
+    [.fs .tempFile, .fs .rmdir, .drop, .fs .mkdir, .fs .writeSpec, .cache .watcherTake, .cache .watcherTake, .cache .scan])).stale = false := by decide
+/-- `drop` is enabled exactly when an event is queued, and what it leaves passes the repaired filter -/
+example : step repaired { init true with queue := [.change, .other] } .drop =
+    some { init true with queue := [.change, .lost] } := by decide
 
 /-! ### From the creation of the cache on -/
 
@@ -228,15 +255,15 @@ theorem setDir_other (f : Nat → DSt) (d d' : Nat) (x : DSt) (h : d ≠ d') : s
 
 theorem proj_memit_same (c : Cfg) (s : MSt) (d : Nat) (e : Ev) : proj c d (memit s d e) = emit (proj c d s) e := by
   unfold memit emit proj
-  cases hk : (s.dir d).kwatch <;> simp [hk, pev]
+  cases hk : (s.dir d).kwatch <;> simp [hk, pev] <;> (intro h; exact h.symm)
 
-theorem proj_memit_other (c : Cfg) (s : MSt) (d d' : Nat) (e : Ev) (h : d ≠ d') :
+theorem proj_memit_other (c : Cfg) (s : MSt) (d d' : Nat) (e : Ev) (h : d ≠ d') (hl : e ≠ .lost) :
     proj c d (memit s d' e) = proj c d s ∨
     proj c d (memit s d' e) = { proj c d s with queue := (proj c d s).queue ++ [if passes c e then .change else .other] } := by
   unfold memit
   cases hk : (s.dir d').kwatch
   · left; simp
-  · right; simp [proj, pev, Ne.symm h]
+  · right; simp [proj, pev, Ne.symm h, hl]
 
 /-- events of other directories are, for this one, a passing or a non-passing foreign event -/
 theorem foreign_step (c : Cfg) (v : St) (e : Ev) :
@@ -378,7 +405,7 @@ theorem sim_query (c : Cfg) (n : Nat) (s s' : MSt) (h : mstep c n s .query = som
 
 theorem sim_take (c : Cfg) (n : Nat) (s s' : MSt) (h : mstep c n s .watcherTake = some s') (d : Nat) (hd : d < n) :
     step c (proj c d s) (.cache .watcherTake) = some (proj c d s') := by
-  obtain ⟨cm, sf⟩ := c
+  obtain ⟨cm, sf, ov⟩ := c
   cases hp : s.pend
   · cases hq : s.queue with
     | nil => simp [mstep, hp, hq] at h
@@ -386,11 +413,11 @@ theorem sim_take (c : Cfg) (n : Nat) (s s' : MSt) (h : mstep c n s .watcherTake 
       obtain ⟨d', e⟩ := p
       by_cases hdd : d' = d
       · subst hdd
-        cases e <;> cases cm <;> cases ht : (s.dir d').tracked <;> cases he : (s.dir d').dirExists <;>
+        cases e <;> cases cm <;> cases ov <;> cases ht : (s.dir d').tracked <;> cases he : (s.dir d').dirExists <;>
           simp [mstep, hp, hq, passes, updateAll, dupdate, hd, ht, he, setDir] at h <;> subst h <;>
           simp [step, cacheStep, proj, hp, hq, pev, passes, update, ht, he, hd, setDir, updateAll, dupdate]
       · have hdd' : d ≠ d' := fun e => hdd e.symm
-        cases e <;> cases cm <;> cases ht : (s.dir d).tracked <;> cases he : (s.dir d).dirExists <;>
+        cases e <;> cases cm <;> cases ov <;> cases ht : (s.dir d).tracked <;> cases he : (s.dir d).dirExists <;>
           cases ht' : (s.dir d').tracked <;>
           simp [mstep, hp, hq, passes, updateAll, dupdate, hd, ht, he, ht', setDir] at h <;> subst h <;>
           simp [step, cacheStep, proj, hp, hq, pev, passes, update, ht, he, ht', hd, hdd, hdd', setDir, updateAll, dupdate]
@@ -413,6 +440,15 @@ theorem sim (c : Cfg) (n : Nat) (s s' : MSt) (st : MStep) (h : mstep c n s st = 
   | watcherTake => exact Or.inr ⟨_, sim_take c n s s' h d hd⟩
   | scan => exact Or.inr ⟨_, sim_scan c n s s' h d⟩
   | query => exact Or.inr (sim_query c n s s' h d hd)
+  | drop =>
+    simp only [mstep] at h
+    split at h
+    · cases h
+    · rename_i hq
+      cases h
+      refine Or.inr ⟨.drop, ?_⟩
+      have hq' : List.map (pev c d) s.queue ≠ [] := by simpa using hq
+      simp [step, dropNewest, proj, hq, List.map_dropLast, pev]
 
 theorem minv_step (n : Nat) (s s' : MSt) (st : MStep) (h : mstep repaired n s st = some s') (d : Nat) (hd : d < n)
     (hi : inv repaired (proj repaired d s) = true) : inv repaired (proj repaired d s') = true := by
@@ -470,7 +506,7 @@ theorem C11_converges_multi (n : Nat) (exists0 : Nat → Bool) (schedule : List 
       · split <;> rfl
     rw [hstale]
     revert hinv' hdd
-    simp only [inv, hasPass, rmdirs, dupdate, proj, repaired, hq, hp, List.map_nil]
+    simp only [inv, hasPass, hasResync, dupdate, proj, repaired, hq, hp, List.map_nil]
     generalize s.dir d = x
     obtain ⟨de, kw, tr, se, stl⟩ := x
     cases de <;> cases kw <;> cases tr <;> cases se <;> cases stl <;> simp
@@ -512,7 +548,7 @@ theorem C11_converges_multi_from_creation (n : Nat) (exists0 : Nat → Bool) (sc
       · split <;> rfl
     rw [hstale]
     revert hinv' hdd
-    simp only [inv, hasPass, rmdirs, dupdate, proj, repaired, hq, hp, List.map_nil]
+    simp only [inv, hasPass, hasResync, dupdate, proj, repaired, hq, hp, List.map_nil]
     generalize s.dir d = x
     obtain ⟨de, kw, tr, se, stl⟩ := x
     cases de <;> cases kw <;> cases tr <;> cases se <;> cases stl <;> simp
